@@ -17,7 +17,19 @@
     1) twice in one process with unrelated library calls interleaved, 2) in two further fresh
     processes, 3) on a spawned thread, 4) after perturbing the heap with random-size allocations,
     5) with the unrelated prior calls permuted; all of it with the dev and with the release build;
-    within a build all digests must be identical."""
+    within a build all digests must be identical.  Session 3: 20 workloads -- added every Display /
+    Debug of the crate in the forms {} {:.3} {:.0} {:12.1} {:?} {:#?} (tensors D = 0..6, every view
+    adaptor, accesses / transposes, matrices, quadrants, LDLT / QR results, records, traces, record
+    containers, the tape, derivative sets, every error type), PANIC MESSAGES (error text naming
+    shapes / dimension names / indexes of ~45 failing calls, e.g. reverse with 1, 2, 3 and 5 invalid
+    names) and results computed after caught panics; the unrelated prior calls now include calls
+    that FAIL part way (cross-tape determinants of sizes 2-4, cross-tape inverse, invalid names)
+    and whose panic the caller catches.
+(d) FORMATTED OUTPUT against Model/Format.v through the generic pipeline: case (18 3 kind ..) --
+    Matrix / MatrixView, Tensor / TensorView (D <= 3), TensorAccess incl. the Data Layout line
+    (D <= 2), Record / Trace, LDLTDecomposition, RecordMatrix / RecordTensor Display with and without
+    precision, over the exact element types i64 and Tok (prints the precision it is given);
+    texts travel as lists of character codes and are compared byte for byte."""
 import itertools, os, random, re, subprocess
 from tools import vlib
 from tools.vlib import sx
@@ -30,8 +42,8 @@ ASSUMPTIONS = ["distinct live WengertLists have distinct addresses (the allocato
                "C18_address_parametric)",
                "std (Vec, iterators, f64 arithmetic, formatting) is deterministic"]
 
-N_WORKLOADS = 14
-N_PRIOR = 8
+N_WORKLOADS = 20
+N_PRIOR = 13
 
 
 # ------------------------------------------------------------------ (b) machine programs
@@ -100,8 +112,73 @@ def random_program(rng, maxlen):
     return prog
 
 
+# ------------------------------------------------------------------ (d) formatted output vs Model/Format.v
+
+PRECS = [[], [0], [3], [12]]
+
+
+def _vals(rng, n):
+    pool = [0, 1, -1, 7, -7, 9, 10, -10, 99, 100, 12345, -99999, 2 ** 31, -2 ** 40, 9223372036854775807, -9223372036854775808]
+    return [rng.choice(pool) if rng.random() < 0.5 else rng.randrange(-1500, 1500) for _ in range(n)]
+
+
+def format_cases(tier, rng):
+    quick = tier == "quick"
+    # matrices: every size up to 4 x 4 (quick: 3 x 4), every precision form, both element types
+    for rows in range(1, 4 if quick else 5):
+        for cols in range(1, 5):
+            for prec in PRECS:
+                for el in (0, 1):
+                    yield sx([18, 3, 0, el, prec, rows, cols, _vals(rng, rows * cols)])
+    # tensors: every D <= 3 with lengths <= 3, names drawn from 0..11 (two-digit names too)
+    shapes = [[]] + [[a] for a in (1, 2, 3, 5)] + [[a, b] for a in (1, 2, 3) for b in (1, 2, 3, 4)] + \
+             [[a, b, c] for a in (1, 2, 3) for b in (1, 2, 3) for c in (1, 2, 3)]
+    for lens in shapes:
+        for prec in (PRECS if len(lens) < 3 or not quick else PRECS[:2]):
+            for el in (0, 1):
+                names = rng.sample(range(12), len(lens))
+                vol = 1
+                for a in lens:
+                    vol *= a
+                yield sx([18, 3, 1, el, prec, [[n, a] for n, a in zip(names, lens)], _vals(rng, vol)])
+                if len(lens) <= 2:
+                    for swap in ((0, 1) if len(lens) == 2 else (0,)):
+                        yield sx([18, 3, 2, el, prec, [[n, a] for n, a in zip(names, lens)], _vals(rng, vol), swap])
+    for prec in PRECS:
+        for v in _vals(rng, 12) + [0, -1, 9223372036854775807, -9223372036854775808]:
+            for el in (0, 1):
+                yield sx([18, 3, 3, el, prec, v])
+        for n in (1, 2, 3):
+            for _ in range(3):
+                yield sx([18, 3, 4, prec, n, _vals(rng, n * n), _vals(rng, n * n)])
+        for rows in (1, 2, 3):
+            for cols in (1, 2, 3):
+                yield sx([18, 3, 5, prec, rows, cols, _vals(rng, rows * cols)])
+    # random larger ones
+    for _ in range(300 if quick else 6000):
+        k = rng.randrange(3)
+        prec = rng.choice(PRECS + [[rng.randrange(0, 40)]])
+        el = rng.randrange(2)
+        if k == 0:
+            rows, cols = rng.randrange(1, 8), rng.randrange(1, 8)
+            yield sx([18, 3, 0, el, prec, rows, cols, _vals(rng, rows * cols)])
+        else:
+            D = rng.randrange(0, 4 if k == 1 else 3)
+            lens = [rng.randrange(1, 5) for _ in range(D)]
+            names = rng.sample(range(0, 120), D)
+            vol = 1
+            for a in lens:
+                vol *= a
+            if k == 1:
+                yield sx([18, 3, 1, el, prec, [[n, a] for n, a in zip(names, lens)], _vals(rng, vol)])
+            else:
+                yield sx([18, 3, 2, el, prec, [[n, a] for n, a in zip(names, lens)], _vals(rng, vol), rng.randrange(2)])
+
+
 def gen(tier, rng):
     quick = tier == "quick"
+    for c in format_cases(tier, rng):
+        yield c
     # exhaustive: two tapes, fixed prefix, every sequence of two operations over the first registers
     prefix = [("new",), ("new",), ("var", 0, 2), ("var", 1, 3), ("const", 5), ("var", 0, 7)]
     pairs = list(itertools.product(range(4), repeat=2))
@@ -127,11 +204,17 @@ def gen(tier, rng):
 def nontrivial(case, model_out):
     """a machine program over at least two tapes whose events include a cross-tape panic, an
     inconsistent-history error or a record on the second tape"""
+    if case.startswith("(18 3 "):
+        # a formatted text with at least two lines and a separator
+        return " 10 " in model_out and " 44 32 " in model_out
     return case.count("(0)") >= 2 and ("(2)" in model_out or "(4 " in model_out or "(0 (1) " in model_out)
 
 
 def distribution(lines):
-    d = {"programs": len(lines) // 4, "layouts": 4, "with_cross_tape_panic_or_error": 0, "max_len": 0}
+    fmt = [l for l in lines if l.startswith("(18 3 ")]
+    lines = [l for l in lines if not l.startswith("(18 3 ")]
+    d = {"programs": len(lines) // 4, "layouts": 4, "with_cross_tape_panic_or_error": 0, "max_len": 0,
+         "format_cases": len(fmt), "format_cases_by_kind": {k: sum(1 for l in fmt if l.startswith("(18 3 %d " % k)) for k in range(6)}}
     for l in lines[::4]:
         d["max_len"] = max(d["max_len"], l.count("(") - 2)
         if l.count("(0)") >= 2:
@@ -202,7 +285,10 @@ FORBIDDEN = [
 ]
 PTR_EQ = re.compile(r"\bptr::eq\b")
 TRANSMUTE = re.compile(r"\btransmute\b")
-ALLOWED_TRANSMUTE = re.compile(r"transmute\(\s*self\.\w+\.get_reference_unchecked_mut\(")
+# the reference-lifetime cast of the mutable iterators, with or without an explicit turbofish whose
+# two types are both references (a harmless rewrite adds `::<&mut T, &'a mut T>`); anything else
+# (e.g. a reference or pointer transmuted to an integer) is flagged
+ALLOWED_TRANSMUTE = re.compile(r"transmute\s*(::\s*<\s*&[^,<>]*,\s*&[^,<>]*>)?\s*\(\s*self\.\w+\.get_reference_unchecked_mut\(")
 
 
 def scan_sources():
@@ -236,7 +322,8 @@ def scan_sources():
                                      "text": line.strip()[:160]})
                 if TRANSMUTE.search(line):
                     stats["transmute"] += 1
-                    if not ALLOWED_TRANSMUTE.search(line):
+                    # (the call may be broken over several lines by a formatter)
+                    if not ALLOWED_TRANSMUTE.search(" ".join(l.strip() for l in lines[ln - 1:ln + 4])):
                         hits.append({"file": rel, "line": ln, "what": "transmute other than the reference-lifetime cast of the mutable iterators",
                                      "text": line.strip()[:160]})
     # the crate's own (non-dev) dependencies: only the optional serde pair -- no dependency can smuggle in
@@ -347,8 +434,10 @@ def extra(tier, seed, cov):
         for v in rv:
             vio.append(("replay", {"property": "C18", "kind": "cross-configuration replay", **v,
                                    "replay_cmd": "echo '%s' | %s   (run it twice / in the named configuration and compare)" % (v["case"], vlib.implrun("debug"))}))
-    cov["explanation"] = ("theorems: address-parametricity of the multi-tape machine + tape positions are append counts (proof, Coq); "
-                          "machine correspondence under 4 memory placements x 2 element types (model vs crate, exact); source scan of every "
+    cov["explanation"] = ("theorems: address-parametricity of the multi-tape machine, tape positions are append counts, frame property for "
+                          "arbitrary interleavings of two clients, Display layout = model and injective (proof, Coq); "
+                          "machine correspondence under 4 memory placements x 2 element types and formatted output vs Model/Format.v "
+                          "(model vs crate, exact); source scan of every "
                           "src/*.rs (lexical, %d files, %d code lines, %d forbidden-pattern hits); digest equality of %d workload instances "
                           "across %d configurations (exploration-grade)"
                           % (sstats["files"], sstats["lines"], len(hits),
